@@ -8,9 +8,11 @@ Not proved here (see OPEN_STATEMENTS in harness/c13.py): the operator-level stat
 for all sizes — it is covered by the docstring / `spec.eq` oracles on the explored lattices.
 -/
 import OFV.Proofs.C13
+import OFV.Proofs.C13Shape
+import OFV.Proofs.C13Grid
 
 namespace OFV.C13
-open OFV.Model.C13 OFV.Spec.C13 OFV.Model.C13.Lattice
+open OFV.Model OFV.Model.C13 OFV.Spec OFV.Spec.C13 OFV.Model.C13.Lattice
 
 /-- **bonds_spec.**  For every lattice size and both boundary conditions, the bonds visited by the
 site loop of `fermi_hubbard` / `bose_hubbard` (`_right_neighbor`, `_bottom_neighbor` and the
@@ -59,11 +61,93 @@ theorem bonds_in_range (x y : Nat) (p : Bool) (e : Nat × Nat) (h : e ∈ (bonds
   rw [(bonds_spec x y p).mem_iff, edges, List.mem_filter, mem_pairs] at h
   exact h.1
 
+
+/-- `neighbors_iter(ordered=True)` is the unordered enumeration followed by its mirror image:
+every Spec edge occurs once in each orientation -/
+theorem neighbors_ordered_perm (l : Lattice) :
+    (l.neighbors true).Perm (l.neighbors false ++ (l.neighbors false).map Prod.swap) :=
+  neighbors_ordered_perm' l
+
+/-! ### conservation laws from the term shapes
+
+`charge w t` = change of the total mode weight caused by the ladder term `t`;
+`Conserves w H` = every term of `H` has charge 0.  `w = 1`: particle number,
+`w = szWeight = (-1)^mode`: `2 S_z`. -/
+
+/-- Spec link: a ladder term changes the total weight of a Fock basis state by exactly its charge
+(for the Spec action `actFTerm`, modes `< n`); a term of charge 0 preserves it. -/
+theorem term_charge_sound (w : Nat → Int) (n : Nat) (t : Term) (s k s' : Nat)
+    (hm : ∀ f ∈ t, f.1 < n) (h : actFTerm t s = some (k, s')) :
+    wt w n s' = wt w n s + charge w t :=
+  actFTerm_wt w n t s k s' hm h
+
+/-- `fermi_hubbard` (spinless or spinful, any flags and couplings, any lattice) conserves the
+particle number: every generated term has as many creation as annihilation operators -/
+theorem fermi_hubbard_conserves_number (tol : Rat) (a : HubbardArgs) (spinless : Bool) :
+    Conserves (fun _ => 1) (fermiHubbard tol a spinless) := by
+  unfold fermiHubbard
+  split
+  · exact conserves_spinless (fun _ _ => rfl)
+  · exact conserves_spinful (fun _ _ => ⟨rfl, rfl⟩)
+
+/-- the spinful model conserves `N_up` and `N_down` separately, hence `S_z` -/
+theorem fermi_hubbard_conserves_sz (tol : Rat) (a : HubbardArgs) :
+    Conserves szWeight (spinfulFermiHubbard tol a) :=
+  conserves_spinful (fun s r => ⟨by rw [sz_even, sz_even], by rw [sz_odd, sz_odd]⟩)
+
+/-- consequence at Spec level: every term of `fermi_hubbard` maps a Fock basis state to a basis
+state with the same number of particles -/
+theorem fermi_hubbard_preserves_particle_number (tol : Rat) (a : HubbardArgs) (spinless : Bool)
+    (e : Term × GQ) (he : e ∈ fermiHubbard tol a spinless) (n s k s' : Nat)
+    (hm : ∀ f ∈ e.1, f.1 < n) (h : actFTerm e.1 s = some (k, s')) :
+    wt (fun _ => 1) n s' = wt (fun _ => 1) n s := by
+  have := actFTerm_wt (fun _ => 1) n e.1 s k s' hm h
+  rw [fermi_hubbard_conserves_number tol a spinless e he] at this
+  simpa using this
+
+theorem bose_hubbard_conserves_number (tol : Rat) (a : HubbardArgs) :
+    Conserves (fun _ => 1) (boseHubbard tol a) :=
+  conserves_bose (fun _ _ => rfl)
+
+/-- `mean_field_dwave` does not conserve the particle number (pairing terms) but conserves `S_z` -/
+theorem mean_field_dwave_conserves_sz (tol : Rat) (a : HubbardArgs) :
+    Conserves szWeight (meanFieldDwave tol a) :=
+  conserves_dwave a
+
+/-- `FermiHubbardModel.hamiltonian()` conserves the particle number for every parameter set -/
+theorem fermi_hubbard_model_conserves_number (tol : Rat) (m : FHM) :
+    Conserves (fun _ => 1) (m.hamiltonian tol) :=
+  conserves_fhm m (fun _ _ => rfl)
+
+/-! ### Grid index arithmetic -/
+
+/-- **grid_index_bijection**: `grid_indices(orbital_id(c)) = c` for coordinates inside the grid
+(`List.Forall₂ (· < ·) coords length`), for every dimension and every length tuple -/
+theorem grid_indices_orbital_id (L cs : List Nat) (h : List.Forall₂ (· < ·) cs L) :
+    gridIndices L (orbitalId L cs none) true = cs :=
+  gridIndices_tensorFactor L cs h
+
+/-- … and `orbital_id(grid_indices(q)) = q` for `q < num_points`, the indices lying inside the grid -/
+theorem orbital_id_grid_indices (L : List Nat) (q : Nat) (h : q < numPoints L) :
+    orbitalId L (gridIndices L q true) none = q ∧ List.Forall₂ (· < ·) (gridIndices L q true) L :=
+  tensorFactor_gridIndices L q h
+
+/-- spinful orbitals: the spin is the parity of the orbital id, the grid point the rest -/
+theorem grid_indices_orbital_id_spin (L cs : List Nat) (σ : Nat) (hσ : σ < 2)
+    (h : List.Forall₂ (· < ·) cs L) :
+    gridIndices L (orbitalId L cs (some σ)) false = cs ∧ orbitalId L cs (some σ) % 2 = σ :=
+  gridIndices_orbitalId_spin L cs σ hσ h
+
 /-! non-vacuity: concrete lattices with a length-2 periodic dimension -/
 example : (edges adjNN 2 3 true).length = 9 := by decide
 example : (bonds 2 3 true).map norm = [(0, 1), (0, 2), (1, 3), (2, 3), (2, 4), (3, 5), (4, 5), (0, 4), (1, 5)] := by decide
 example : ((⟨3, 2, 1, false, true⟩ : Lattice).neighbors false).map norm
     = [(0, 1), (3, 4), (1, 2), (4, 5), (0, 2), (3, 5), (0, 3), (1, 4), (2, 5)] := by decide
 example : (0 : Nat) < (⟨3, 2, 1, false, true⟩ : Lattice).x := by decide
+example : List.Forall₂ (· < ·) [2, 1] [3, 2] := by decide
+example : orbitalId [3, 2] [2, 1] none = 5 ∧ gridIndices [3, 2] 5 true = [2, 1] := by decide
+example : (5 : Nat) < numPoints [3, 2] := by decide
+example : actFTerm [(2, 1), (0, 0)] 1 = some (0, 4) ∧ charge (fun _ => 1) [(2, 1), (0, 0)] = 0 := by decide
+example : charge szWeight [(0, 1), (3, 1)] = 0 ∧ charge (fun _ => 1) [(0, 1), (3, 1)] = 2 := by decide
 
 end OFV.C13
